@@ -111,8 +111,12 @@ def preflush_domain(spec, pre):
         sim = refsim.RefSim(spec, initial_only=True)
         state0 = sim.initial_state()
         pv = sim.eval_pars(state0, 0)
-    except Exception:
-        return
+    except Discard:
+        raise
+    except Exception as e:
+        # a junction starts with people but the pre-flush proportions cannot be recomputed independently: whether the model is
+        # well-posed is then unknown, and an ill-posed one must not be judged
+        raise Discard("junction initialised with people and the pre-flush parameter values could not be recomputed (%s)" % type(e).__name__)
     # push the contents down the junction DAG by the documented rule; a plain junction that holds or receives people while its
     # (pre-flush) proportions sum to <= 0 yields NaN in the reference as well: ill-posed
     import numpy as np
